@@ -1,8 +1,8 @@
 (* Property C07 - a blocking report returns only after its value is stacked (or
    rejected).  Statements only. *)
 From Coq Require Import List NArith Bool.
-From Dials Require Import Base.Outcome Core.CbMgr Core.Monitor Core.System
-  Core.MonitorProofs Core.SystemProofs.
+From Dials Require Import Base.Outcome Reflect.Ty Stack.Overlay Ez.SeqDials Core.CbMgr Core.Monitor Core.System
+  Core.MonitorProofs Core.SystemProofs Core.SeqBridge.
 Import ListNotations.
 Open Scope N_scope.
 
@@ -86,6 +86,116 @@ Theorem offering_ctx_returns : forall (cfg sv : Type) (s : sys cfg sv) (tid : N)
   exists s' r, cancel_call s tid = Some s' /\ lookup tid (s_thr s') = Some (mkThr (t_op t) (PDone r) true).
 Proof. exact @cancel_offering_returns_l. Qed.
 
+(* ======================================================================
+   BRIDGE to the sequential model Ez/SeqDials.v (used for ez and Blank: C18,
+   C20).  SeqDials assumes that its caller blocks until the monitor has
+   answered; these theorems justify that reading against the small-step system.
+   The core model is instantiated with configs = field-value lists, source
+   values = layers, stacking = C01's compose (stackB; a panic of compose is
+   excluded), params = pB prm.  abs s st reads a SeqDials state off a system
+   state whose monitor (state st) is at its select: slots, watching bits,
+   skipVerify from st; config and serial from the atomic value; the Events
+   channel; the Verify receivers, OnNewConfig and OnWatchedError invocations
+   from the ghost history.
+   ====================================================================== *)
+
+(* Params.Config *)
+Theorem seq_config_refines_system : forall (fs : fields) (defaults : cfgv) (verify : cfgv -> bool) (prm : dparams)
+    (layers : list val) (watching : list bool),
+  existsb (fun b => b) watching = true ->
+  (forall c, compose fs defaults layers <> Panic c) ->
+  match d_config fs defaults verify prm layers watching with
+  | Ok d0 => exists s0 st0, snd (sys_init (stackB fs defaults) verify (pB prm) layers watching) = Ok s0 /\
+                            s_mon s0 = MRun st0 [] /\ s_cb s0 = CRun cb_init [] /\ s_cbq s0 = [] /\ abs s0 st0 = d0
+  | Err _ => exists c, snd (sys_init (stackB fs defaults) verify (pB prm) layers watching) = Err c
+  | Panic _ => False
+  end.
+Proof. exact @seq_config_refines_system_l. Qed.
+
+(* a blocking report of source i: from any state whose monitor is at its
+   select and whose callback goroutine is idle with an empty queue, the
+   schedule "reporter offers; monitor receives and performs all its pending
+   actions; reporter takes the reply; callback goroutine takes the event, every
+   callback returns" ends in a state abstracting to fst (d_update st i v) - the
+   whole dstate, callback logs included - and the reporter returns the class of
+   snd (d_update st i v) *)
+Theorem seq_update_refines_system : forall (fs : fields) (defaults : cfgv) (verify : cfgv -> bool) (prm : dparams)
+    (on_new on_err : bool) (cbcap : N) (s : sys cfgv val) (st : mon_state val) (tid : N)
+    (i : nat) (v : val) (cst : cb_state cfgv),
+  s_mon s = MRun st [] ->
+  lookup tid (s_thr s) = None -> lookup tid (s_replies s) = None ->
+  (forall c, compose fs defaults (Monitor.set_nth i v (m_slots st)) <> Panic c) ->
+  on_new = true -> on_err = true -> 0 < cbcap ->
+  s_cb s = CRun cst [] -> s_cbq s = [] ->
+  let d := d_update fs defaults verify prm (abs s st) i v in
+  exists ls s' st' r cst',
+    run (stackB fs defaults) verify (pB prm) on_new on_err cbcap s ls = Some s' /\
+    s_mon s' = MRun st' [] /\ s_cb s' = CRun cst' [] /\ s_cbq s' = [] /\
+    abs s' st' = fst d /\
+    lookup tid (s_thr s') = Some (mkThr (OpOffer (MsgUpdate i v true)) (PDone r) false) /\
+    ret_matches (snd d) r.
+Proof. exact @seq_update_refines_system_full_l. Qed.
+
+(* the same without any assumption on the callback goroutine, for the fields
+   the monitor owns (mon_eq: everything but the two callback logs); the event is
+   put into the queue unless it is full *)
+Theorem seq_update_refines_system_monitor_side : forall (fs : fields) (defaults : cfgv) (verify : cfgv -> bool) (prm : dparams)
+    (on_new on_err : bool) (cbcap : N) (s : sys cfgv val) (st : mon_state val) (tid : N)
+    (i : nat) (v : val),
+  s_mon s = MRun st [] ->
+  lookup tid (s_thr s) = None -> lookup tid (s_replies s) = None ->
+  (forall c, compose fs defaults (Monitor.set_nth i v (m_slots st)) <> Panic c) ->
+  let d := d_update fs defaults verify prm (abs s st) i v in
+  exists ls s' st' r,
+    run (stackB fs defaults) verify (pB prm) on_new on_err cbcap s
+      (LApiStart tid (OpOffer (MsgUpdate i v true)) :: LMonRecv (ROffer tid) :: ls) = Some s' /\
+    s_mon s' = MRun st' [] /\
+    mon_eq (abs s' st') (fst d) /\
+    lookup tid (s_thr s') = Some (mkThr (OpOffer (MsgUpdate i v true)) (PDone r) false) /\
+    ret_matches (snd d) r /\
+    s_cb s' = s_cb s /\
+    s_cbq s' = s_cbq s ++
+      (if has_room cbcap s
+       then submits_of (snd (mon_recv (stackB fs defaults) verify (pB prm) (s_value s) st (InUpdate i v (Some tid))))
+       else []) /\
+    newcfg_of (s_log s') = newcfg_of (s_log s) /\ errcb_of (s_log s') = errcb_of (s_log s).
+Proof. exact @seq_update_refines_system_l. Qed.
+
+(* EnableVerification (no request pending in monCtl) *)
+Theorem seq_enable_refines_system : forall (fs : fields) (defaults : cfgv) (verify : cfgv -> bool) (prm : dparams)
+    (on_new on_err : bool) (cbcap : N) (s : sys cfgv val) (st : mon_state val) (tid : N),
+  s_mon s = MRun st [] -> s_ctl s = [] ->
+  lookup tid (s_thr s) = None -> lookup tid (s_eresps s) = None ->
+  let d := d_enable verify prm (abs s st) in
+  exists ls s' st' r,
+    run (stackB fs defaults) verify (pB prm) on_new on_err cbcap s (LApiStart tid OpEnable :: ls) = Some s' /\
+    s_mon s' = MRun st' [] /\
+    mon_eq (abs s' st') (fst d) /\
+    lookup tid (s_thr s') = Some (mkThr OpEnable (PDone r) false) /\
+    enable_matches (snd d) r /\
+    s_cb s' = s_cb s /\ s_cbq s' = s_cbq s.
+Proof. exact @seq_enable_refines_system_l. Qed.
+
+(* WatchArgs.Done of source i: the monitor's next pending list is empty iff
+   SeqDials says the monitor stays alive; otherwise its next step is the exit *)
+Theorem seq_done_refines_system : forall (fs : fields) (defaults : cfgv) (verify : cfgv -> bool) (prm : dparams)
+    (on_new on_err : bool) (cbcap : N) (s : sys cfgv val) (st : mon_state val) (tid : N) (i : nat),
+  s_mon s = MRun st [] -> lookup tid (s_thr s) = None ->
+  let d := d_done (abs s st) i in
+  exists s' st',
+    run (stackB fs defaults) verify (pB prm) on_new on_err cbcap s
+      [LApiStart tid (OpOffer (MsgDone i)); LMonRecv (ROffer tid)] = Some s' /\
+    s_mon s' = MRun st' (if d_alive d then [] else [AExit]) /\
+    (d_slots (abs s' st') = d_slots d /\ d_watching (abs s' st') = d_watching d /\ d_cur (abs s' st') = d_cur d /\
+     d_serial (abs s' st') = d_serial d /\ d_skipv (abs s' st') = d_skipv d /\ d_events (abs s' st') = d_events d /\
+     d_vlog (abs s' st') = d_vlog d) /\
+    lookup tid (s_thr s') = Some (mkThr (OpOffer (MsgDone i)) (PDone RetUnit) false) /\
+    s_cb s' = s_cb s /\ s_cbq s' = s_cbq s /\
+    (d_alive d = false ->
+       exists s'', step (stackB fs defaults) verify (pB prm) on_new on_err cbcap s' (LMonAct false) = Some s'' /\
+                   s_mon s'' = MExited /\ s_done s'' = true).
+Proof. exact @seq_done_refines_system_l. Qed.
+
 Print Assumptions blocking_nil_needs_reply.
 Print Assumptions blocking_nil_after_store.
 Print Assumptions accepted_update_stacks_its_value.
@@ -93,3 +203,8 @@ Print Assumptions blocking_error_view_unchanged.
 Print Assumptions monitor_never_blocks_on_reply.
 Print Assumptions blocking_ctx_returns.
 Print Assumptions offering_ctx_returns.
+Print Assumptions seq_config_refines_system.
+Print Assumptions seq_update_refines_system.
+Print Assumptions seq_update_refines_system_monitor_side.
+Print Assumptions seq_enable_refines_system.
+Print Assumptions seq_done_refines_system.
